@@ -147,7 +147,7 @@ func Groups(thorough bool) []Group {
 			}
 		}
 		for _, succ := range []string{"yes", "no"} {
-			for _, args := range [][]string{nil, {"ls"}, {"ls", "-l", "my file"}} {
+			for _, args := range [][]string{nil, {"ls"}, {"ls", "-l", "my file"}, {"sh", "-c", strings.Repeat("A", 257), strings.Repeat("long arg ", 300)}} {
 				for _, np := range []int{0, 1, 2} {
 					for _, eoe := range []bool{false, true} {
 						if !thorough && eoe && np == 2 {
